@@ -13,6 +13,7 @@ pub mod c08;
 pub mod c09;
 pub mod c10;
 pub mod c11;
+pub mod c12;
 pub mod c13;
 pub mod c14;
 pub mod c15;
@@ -38,6 +39,7 @@ pub fn run(prop: &str, tier: Tier, seed: u64) -> Option<i32> {
         "C18" => c18::run(tier, seed),
         "C07" => c07::run(tier, seed),
         "C11" => c11::run(tier, seed),
+        "C12" => c12::run(tier, seed),
         "C13" => c13::run(tier, seed),
         "C14" => c14::run(tier, seed),
         "C15" => c15::run(tier, seed),
@@ -63,6 +65,7 @@ pub fn scenario(prop: &str, name: &str, tier: Tier) -> Option<BoxedScenario> {
         "C18" => c18::scenario(name, tier),
         "C07" => c07::scenario(name, tier),
         "C11" => c11::scenario(name, tier),
+        "C12" => c12::scenario(name, tier),
         "C13" => c13::scenario(name, tier),
         "C14" => c14::scenario(name, tier),
         "C15" => c15::scenario(name, tier),
